@@ -108,7 +108,7 @@ func parseBool(b byte) (bool, error) {
 // otherwise by the universal tag of its type.
 func memberMatches(p fieldParameters, t reflect.Type, tal tagAndLen) bool {
 	if p.tagNumber != nil {
-		return *p.tagNumber == tal.tagNumber
+		return tal.class == ClassContextSpecific && *p.tagNumber == tal.tagNumber
 	}
 	if tal.class != ClassUniversal {
 		return false
@@ -264,7 +264,7 @@ func ParseField(v reflect.Value, bytes []byte, params fieldParameters) error {
 				for i := 1; i < structType.NumField(); i++ {
 					if structParams[i].tagNumber == nil {
 						// TODO: choice type with a universal tag
-					} else if *structParams[i].tagNumber == tal.tagNumber {
+					} else if tal.class == ClassContextSpecific && *structParams[i].tagNumber == tal.tagNumber {
 						present = i
 						break
 					}
